@@ -431,10 +431,24 @@ def standard_run(ctx, *, mc=(), goals=None, gens=(), trace, replay_cmd="world-re
     if gens:
         beh = ctx.path("beh.jsonl")
         n = 0
-        for gi, g in enumerate(gens):
+        # the generators run side by side, each into its own file (concatenated in order afterwards)
+        from concurrent.futures import ThreadPoolExecutor
+
+        def one(gi_g):
+            gi, g = gi_g
             module, cfg, sim, limit = g
-            n += generate(ctx, module, cfg, beh, workers=1 if sim else 4, simulate=sim, limit=limit,
-                          seed=ctx.seed if sim else None, tag="gen%d" % gi)
+            part = ctx.path("beh-%d.jsonl" % gi)
+            return generate(ctx, module, cfg, part, workers=1 if sim else 3, simulate=sim, limit=limit,
+                            seed=ctx.seed if sim else None, tag="gen%d" % gi)
+        with ThreadPoolExecutor(max_workers=4) as ex:
+            counts = list(ex.map(one, enumerate(gens)))
+        n = sum(counts)
+        with open(beh, "a") as f:
+            for gi in range(len(gens)):
+                part = ctx.path("beh-%d.jsonl" % gi)
+                if os.path.exists(part):
+                    f.write(open(part).read())
+                    os.remove(part)
         ctx.behaviours += n
         vh(ctx, [replay_cmd, "--in", beh, "--out", ctx.path("replay.ndjson")])
         rejected += validate_traces(ctx, trace[0], trace[1], ctx.path("replay.ndjson"), "replay", is_reset=is_reset)
